@@ -2126,7 +2126,7 @@ type c16CallerCase struct {
 }
 
 var c16CallerAPIs = []string{"gw.Write", "gw.WriteRows", "w.Write", "w.WriteRows", "gb.Write", "gb.WriteRows", "b.Write", "b.WriteRows",
-	"sw.Write", "sw.WriteRows", "cw.WriteRowValues", "copyrows", "pq.Write"}
+	"sw.Write", "sw.WriteRows", "cw.WriteRowValues", "copyrows", "pq.Write", "filter.WriteRows", "dedupe.WriteRows"}
 
 // c16SliceReader serves caller-owned rows to CopyRows.
 type c16SliceReader struct {
@@ -2309,6 +2309,21 @@ func c16ExecCaller(cs *c16CallerCase) (o *c16Outcome) {
 		do("close", w.Close)
 	case "pq.Write":
 		do("write", func() error { return parquet.Write[c16Rec](&out, recs, wopts...) })
+	case "filter.WriteRows", "dedupe.WriteRows":
+		// row writer wrappers: they borrow the caller's rows on their way to the writer
+		w := parquet.NewGenericWriter[c16Rec](&out, wopts...)
+		var rw parquet.RowWriter
+		switch cs.API {
+		case "filter.WriteRows":
+			k := 0
+			rw = parquet.FilterRowWriter(w, func(parquet.Row) bool { k++; return k%3 != 0 })
+		case "dedupe.WriteRows":
+			rw = parquet.DedupeRowWriter(w, func(a, b parquet.Row) int { return 1 })
+		}
+		do("write", func() (err error) { _, err = rw.WriteRows(rows); return err })
+		do("flush", w.Flush)
+		do("write again", func() (err error) { _, err = rw.WriteRows(rows); return err })
+		do("close", w.Close)
 	case "w.Write", "w.WriteRows":
 		w := parquet.NewWriter(&out, append([]parquet.WriterOption{c16Schema}, wopts...)...)
 		do("write", func() (err error) {
